@@ -34,7 +34,7 @@ REQUIRED = dict(monitors=['fit-names-and-order', 'prior-implied-by-current-setti
                           'boundaries-implied-by-current-settings', 'derived-names', 'write-back-is-identity',
                           'update-sets-fitted-to-prior-transform', 'update-leaves-others-untouched',
                           'unknown-parameter-is-an-error', 'history-log-complete'],
-                classes=['op:failed_compile', 'bounds-nudged-in-a-late-digit', 'parameter-declared-as-integer', 'update:same-container-edited-in-place', 'update:same-vector-after-direct-write', 'op:enable_fit', 'op:disable_fit', 'op:set_mode', 'op:set_boundary', 'op:set_factor_boundary',
+                classes=['one-prior-object-in-two-roles', 'op:failed_compile', 'bounds-nudged-in-a-late-digit', 'parameter-declared-as-integer', 'update:same-container-edited-in-place', 'update:same-vector-after-direct-write', 'op:enable_fit', 'op:disable_fit', 'op:set_mode', 'op:set_boundary', 'op:set_factor_boundary',
                          'op:set_prior', 'op:enable_derived', 'op:disable_derived', 'op:compile_params',
                          'op:update_model', 'changed-after-first-compile', 'observation-parameter-fitted',
                          'user-prior-other-space', 'bounds-reversed'])
@@ -426,6 +426,33 @@ def wl_history(ctx, rng):
                 pr = Gaussian(mean=v, std=abs(v) * 0.1)
             else:
                 pr = LogGaussian(mean=math.log10(v), std=0.3)
+            donors = [q for q in ref.fitted() if q != n and ref.p[q]['prior'] is None and q in chosen]
+            names_now = [t[0] for t in opt.fitting_parameters] if compiled else []
+            donors = [q for q in donors if q in names_now]
+            if donors and rng.random() < 0.35:
+                # ONE prior object in two roles: the object the last compile built as the DEFAULT prior of another
+                # parameter is handed to set_prior for this one; that other parameter stays a default-prior parameter --
+                # its bounds are written and everything is compiled again, and it has to follow its own settings
+                q = donors[int(rng.integers(0, len(donors)))]
+                pr = opt.fitting_priors[names_now.index(q)]
+                kind = 1 if type(pr).__name__ == 'LogUniform' else 0
+                opt.set_prior(n, pr)
+                mine.append('set_prior')
+                ref.p[n]['prior'] = pr
+                history.append((op, n, type(pr).__name__ + ':the-default-prior-object-of-' + q))
+                b = rnd_bounds(rng, ref.p[q]['fget'](), True)
+                opt.set_boundary(q, list(b))
+                mine.append('set_boundary')
+                ref.p[q]['bounds'] = tuple(b)
+                history.append(('set_boundary', q, b))
+                opt.compile_params()
+                mine.append('compile_params')
+                compiled += 1
+                history.append(('compile_params',))
+                ctx.feature(history=history[-25:])
+                judge_compile(ctx, opt, ref, model, obs, history)
+                ctx.observe('one-prior-object-in-two-roles')
+                continue
             opt.set_prior(n, pr)
             ref.p[n]['prior'] = pr
             sp = 'log' if kind in (1, 3) else 'linear'
